@@ -1,6 +1,7 @@
 import EinoV.Basic.JsonUtil
 import EinoV.Model.C10
 import EinoV.Model.C10Runs
+import EinoV.Model.C10Share
 import EinoV.Expected.C10
 
 namespace EinoV.Oracle.C10
@@ -120,6 +121,43 @@ def handleRuns (c : Json) : JE Json := do
   let cbs := buildCbs opts
   pure <| Json.mkObj [("runs", J.mkArr runs), ("cbsLen", (cbs.2.len : Json)), ("cbsCap", (cbs.2.cap : Json))]
 
+/-! ### share: one Lambda value under several node keys (Model/C10Share.lean) -/
+
+def parseLamD (j : Json) : JE LamD := do
+  let (k, self) ← parseLK (← J.str j "lk")
+  pure ⟨k, self, ← J.str j "type"⟩
+
+def parseNodeD (j : Json) : JE NodeD := do
+  pure ⟨← J.nat j "lam", ← J.str j "name", J.boolD j "keyed" false⟩
+
+def parseShareUnit (j : Json) : JE ShareUnit := do
+  let path ← (J.arrD j "path").mapM J.asStr
+  match j.getObjVal? "node" with
+  | .ok v =>
+    match v.getNat? with
+    | .ok n => pure ⟨path, some n, "", .wrapped false .ok⟩
+    | .error _ => pure ⟨path, none, ← J.str j "info", ← parseUKind (← J.field j "k")⟩
+  | .error _ => pure ⟨path, none, ← J.str j "info", ← parseUKind (← J.field j "k")⟩
+
+def handleShare (c : Json) : JE Json := do
+  let ls ← (J.arrD c "lambdas").mapM parseLamD
+  let ns ← (J.arrD c "nodes").mapM parseNodeD
+  let order ← J.natList c "order"
+  let globals ← parseHds c "globals"
+  let userInit ← parseUserInit c
+  let st := compileAll Expected.C10.lambdaNodeOwnsRunnable ls.length ns order
+  let graphs ← (J.arrD c "graphs").mapM fun g => do
+    let opts ← (J.arrD g "opts").mapM parseOpt
+    let us ← (J.arrD g "units").mapM parseShareUnit
+    let cs : Case := { globals := globals, userInit := userInit, opts := opts,
+                       units := us.map (shareUnit ls ns st) }
+    let cbs := buildCbs opts
+    pure <| Json.mkObj [("units", J.mkArr (unitsJson cs)), ("cbsLen", (cbs.2.len : Json)), ("cbsCap", (cbs.2.cap : Json))]
+  pure <| Json.mkObj [("graphs", J.mkArr graphs),
+                      ("decl", J.mkArr (ns.map fun d => Json.str (declInfo ls d))),
+                      ("runInfo", J.mkArr ((List.range ns.length).map fun i =>
+                          match runInfo ls st i with | some s => Json.str s | none => Json.null))]
+
 def parseSlice (j : Json) : JE Slice := do
   match (← J.asArr j) with
   | [a, o, l, c] => pure ⟨← J.asNat a, ← J.asNat o, ← J.asNat l, ← J.asNat c⟩
@@ -177,6 +215,7 @@ def handle (c : Json) : JE Json := do
   | "api" => handleApi c
   | "copies" => handleCopies c
   | "runs" => handleRuns c
+  | "share" => handleShare c
   | _ => handleCompose c
 
 end EinoV.Oracle.C10
